@@ -164,17 +164,24 @@ func (A *ownAnalysis) normalisedLoops(fn *ssa.Function) []normalised {
 				}
 				memo[b] = 1
 				res := false
-				// (a) a dominating test `S[i].f.dirty` is true
-				for _, fct := range ir.FactsAt(b) {
-					if fct.Truth && ir.Sym(fct.Cond) == dirtyLoad && loop[fct.From] {
-						res = true
-					}
-				}
-				// (b) this block marks the (just replaced, unshared) node dirty
-				if !res {
+				// (b) at the end of this block the slot holds an unshared node that was marked dirty:
+				// either `S[i].f.dirty = true` through a load of the slot made after the last store into
+				// it, or `v.dirty = true` for the very value v that the block stores into the slot
+				slotStored := false
+				{
+					var cur ssa.Value
+					var lastSlotStore ssa.Instruction
+					marked := map[ssa.Value]bool{}
+					estB := false
 					for _, ins := range b.Instrs {
 						st, ok := ins.(*ssa.Store)
 						if !ok {
+							continue
+						}
+						if ir.Sym(st.Addr) == nodeAddr {
+							slotStored = true
+							cur, lastSlotStore = st.Val, st
+							estB = marked[st.Val]
 							continue
 						}
 						fa, ok := st.Addr.(*ssa.FieldAddr)
@@ -182,19 +189,40 @@ func (A *ownAnalysis) normalisedLoops(fn *ssa.Function) []normalised {
 							continue
 						}
 						if v, ok := ir.ConstBool(st.Val); !ok || !v {
+							if fa.X == cur || ir.Sym(fa.X) == "*"+nodeAddr {
+								estB = false
+							}
+							delete(marked, fa.X)
 							continue
 						}
-						if ir.Sym(fa.X) != "*"+nodeAddr {
+						if cl := A.Classify(fa.X, st); cl.Own > Unshared {
 							continue
 						}
-						if cl := A.Classify(fa.X, st); cl.Own <= Unshared {
+						switch {
+						case cur != nil && fa.X == cur:
+							estB = true
+						case ir.Sym(fa.X) == "*"+nodeAddr:
+							// a load of the slot: it must read what the block last stored there
+							if ld, ok := fa.X.(*ssa.UnOp); ok && (lastSlotStore == nil || (ld.Block() == b && ir.Before(lastSlotStore, ld))) {
+								estB = true
+							}
+						default:
+							marked[fa.X] = true
+						}
+					}
+					res = estB
+				}
+				// (a) a dominating test `S[i].f.dirty` is true, and this block leaves the slot alone
+				if !res && !slotStored {
+					for _, fct := range ir.FactsAt(b) {
+						if fct.Truth && ir.Sym(fct.Cond) == dirtyLoad && loop[fct.From] {
 							res = true
 						}
 					}
 				}
 				// (c) all predecessors inside the body establish it, and this
 				// block does not overwrite the slot
-				if !res && b != body {
+				if !res && b != body && !slotStored {
 					all := len(b.Preds) > 0
 					for _, p := range b.Preds {
 						if !loop[p] || !(edgeEst(p, b) || est(p)) {
